@@ -342,4 +342,23 @@ PROPS = {
         "thorough": {"runs": [q(deadline=900, watchdog=3600), dict(q(deadline=1200, watchdog=3600), variant="asan", env=ASAN_ENV)],
                      "floor": {"cases": 20000, "mask_comparisons": 200000}},
     },
+    "C14": {
+        "eval_counter": "interleaved_op_checks",
+        "case_counter": "enum_cases",
+        "rule": "three workloads. (1) exhaustive schedule enumeration on one thread: 2 or 3 clones of a non-initial base engine (shallow = "
+                "shared lexer mutex, deep, mixed) get private op lists (mask / commit / validate / rollback / ff tokens / ff bytes / "
+                "is_accepting; tokens resolved against a private deep reference); ALL interleavings of the op lists (2x4: 70, 2x5: 252, "
+                "3x3: 1680; 3+3+2 in quick) are executed and every result must equal the private reference result. (2) real OS threads: "
+                "2..16 clones (some taken before the shared lexer grew) run their op lists concurrently behind a barrier; hook H1 injects "
+                "seeded yields and short sleeps before taking / after releasing the shared-lexer mutex and records the order of lock owners; "
+                "every logged result is checked offline against the private reference. (3) llg_par_compute_mask (rayon) over 2..16 cloned "
+                "constraints driven to different histories vs sequential Rust masks. evaluations = op results compared under enumerated "
+                "interleavings. Non-trivial = enumeration case with a mask op and >=2 committing clones / thread run whose lock-owner "
+                "sequence shows >=2 owner switches (distinct by that sequence) / par batch.",
+        "assumptions": ["API calls on shallow clones are atomic w.r.t. the shared lexer (one mutex), so single-thread interleavings of whole calls cover the reachable schedules at call granularity",
+                        "thorough adds a ThreadSanitizer build (-Zsanitizer=thread -Zbuild-std) of the thread workload"],
+        "quick": {"runs": [q(deadline=45)], "floor": {"enum_cases": 100, "interleavings_executed": 10000, "thread_cases": 100, "threaded_op_checks": 5000, "lock_owner_switches": 200, "par_masks_checked": 500, "distinct_nontrivial": 150}},
+        "thorough": {"runs": [q(deadline=1200, watchdog=3600), dict(q(deadline=600, watchdog=5400), variant="tsan", args=["--mode", "threads"], env={"TSAN_OPTIONS": "halt_on_error=1:exitcode=66"})],
+                     "floor": {"enum_cases": 3000, "thread_cases": 3000}},
+    },
 }
